@@ -38,10 +38,12 @@ CLAIMED = {
     "C08": dict(ref="DESIGN.md §3 C08", note=NOTE + "; partial: sequential pieces only, nothing timed",
                 text="Every sequence of queries inside the bound is run through the real per-chunk result cache and must equal an uncached filter after every step; "
                      "the conditions under which a narrower search scope may be reused are checked on grammar-generated queries. Timing/coalescing is NOT claimed."),
-    "C12": dict(ref="DESIGN.md §3 C12", note=NOTE + "; partial: quoting functions only; the shell-lexing reference is trusted",
-                text="QuoteEntry (sh and fish escapers) and escapeSingleQuote are proved, for every entry over an alphabet of shell metacharacters up to the bound, to be "
-                     "read back by a model of shell word lexing as exactly one word equal to the entry. Placeholder discovery/expansion and the real shells are NOT claimed."),
-    "C16": dict(ref="DESIGN.md §3 C16", note=NOTE + "; partial: request-handling logic only; sockets, timeouts and action execution are outside",
+    "C12": dict(ref="DESIGN.md §3 C12", note=NOTE + "; partial: quoting functions, replacePlaceholder on a fixed template list, runTmux's argument re-quoting; the shell-lexing reference is trusted",
+                text="QuoteEntry (sh and fish escapers) and escapeSingleQuote are decided, for every entry over an alphabet of shell metacharacters up to the bound, to be "
+                     "read back by a model of shell word lexing as exactly one word equal to the entry; the whole replacePlaceholder is decided on a fixed list of templates with "
+                     "symbolic item texts and queries; runTmux's command line is decided to lex under POSIX rules into the original argument vector whatever the user's shell. "
+                     "Other templates, {f} temp files, the export lines of runProxy and the real shells are NOT claimed."),
+    "C16": dict(ref="DESIGN.md §3 C16", note=NOTE + "; partial: request handling and server start-up logic; sockets (native replays only), timeouts and action execution are outside",
                 text="The authorisation / framing logic of handleHttpRequest is decided for all requests assembled from the token grammar (any header order, key, "
                      "content length, body, early close) under every cut of the stream into reads, with the real bufio.Scanner and split closure; startHttpServer is decided with "
                      "net.Listen modelled (remote listener refused without key; the enforced key is exactly the configured one) and parseListenAddress against an independent parser."),
